@@ -28,7 +28,8 @@ RULE = ("prime selection: every size 25..1200 (plus 12 and 24) x several "
         "cover codes; LS estimator with real and complex full-row-rank pilots, "
         "2-D and both 3-D forms.  Signature = (kind, size class, root class, "
         "shift, antennas, normalised, users); non-trivial = size > 24 or a "
-        "multi-tap channel.")
+        "multi-tap channel.  "
+        "Cover codes are Walsh rows of length 2 and 4. ")
 ASSUMPTIONS = ["phase of the reference ZC sequence reduced exactly with integer "
                "arithmetic modulo 2 Nzc; library phases are allowed 8 eps pi u N",
                "multi-user estimator scenarios only for lengths that are a "
